@@ -372,11 +372,11 @@ def r3_5(ctx, R, layout_fn):
            "%d byte-offset steps (add %d, sub %d), %d distinct offset shapes: %s" % (len(steps), fwd, rev, len(shapes), [x[:90] for x in sorted(shapes)][:2]))
     in_ctor = any(s_[0].path == ctor.path and s_[2] == "add" for s_ in steps)
     ctx.ob("R3.5", ctor, "(a) the constructor places the items at that offset", in_ctor, d_loc(ctor))
-    # (b) constructor writes
-    item_ty = None
+    # (b) constructor writes: every item slice+K, K in 0..=cap, is written with index K; the stub is slice+cap
     writes = direct_sites(ctor, r"core::ptr::write$")
-    stub_ptr = None
     nitem = 0
+    covered = set()
+    slice_bases = []
     for bb, t, fn in writes:
         val = cf.operand_expr(t["args"][1])
         dst = cf.operand_expr(t["args"][0])
@@ -385,10 +385,12 @@ def r3_5(ctx, R, layout_fn):
             idx = val[2][val[3].index("index")]
             # dst = add(slice, K)
             ok = dst[0] == "call" and (dst[1] or "").endswith("::add") and dst[2][1] == idx
+            if ok:
+                slice_bases.append(dst[2][0])
             in_loop = any(bb in body for body in ctor.loops().values())
             kind = "loop-item" if in_loop else "stub"
             if in_loop:
-                # idx is the Some payload of Range(0..cap)::next
+                # idx is the Some payload of (0..cap)::next or (0..=cap)::next
                 rng_ok = False
                 for c in expr_calls(idx):
                     if c[1] and "Range" in c[1] and c[1].endswith("::next"):
@@ -398,17 +400,29 @@ def r3_5(ctx, R, layout_fn):
                         if it[0] == "agg" and it[1].endswith("Range::Range") and it[2][0][0] == "const" and it[2][0][2] == "0" \
                                 and strip_refs(it[2][1])[0] == "param":
                             rng_ok = True
+                            if ok:
+                                covered.add("0..cap")
+                        if it[0] == "call" and (it[1] or "").endswith("RangeInclusive::<Idx>::new") and len(it[2]) == 2 and \
+                                it[2][0][0] == "const" and it[2][0][2] == "0" and strip_refs(it[2][1])[0] == "param":
+                            rng_ok = True
+                            if ok:
+                                covered |= {"0..cap", "cap"}
                 ok = ok and rng_ok
             else:
                 ok = ok and strip_refs(idx)[0] == "param"
-                stub_ptr = dst
+                if ok:
+                    covered.add("cap")
             ctx.ob("R3.5", ctor, "(b) item written at slice+K has index K (%s)" % kind, ok, ctor.loc(bb),
                    "dst=%s index=%s" % (expr_str(dst), expr_str(idx)))
-    ctx.floor("R3.5", "item-writes-in-constructor", nitem, 2)
+    ctx.floor("R3.5", "item-writes-in-constructor", nitem, 1)
+    ctx.ob("R3.5", ctor, "(b) every item 0..=cap is initialised", covered == {"0..cap", "cap"}, d_loc(ctor), "covered: %s" % sorted(covered))
     for bb, t, fn in direct_sites(ctor, r"cordyceps::MpscQueue::<.*>::new_with_stub$"):
         a = strip_refs(cf.operand_expr(t["args"][0]))
-        ok = stub_ptr is not None and a == strip_refs(stub_ptr) or (stub_ptr is not None and a[0] == "call" and a[2] == stub_ptr[2])
-        ctx.ob("R3.5", ctor, "(b) stub handed to the queue is slice+cap", bool(ok), ctor.loc(bb), "%s vs %s" % (expr_str(a), expr_str(stub_ptr) if stub_ptr else None))
+        while a[0] == "call" and re.search(r"NonNull::<T>::new_unchecked$|::cast$|::cast_mut$", a[1] or "") and a[2]:
+            a = strip_refs(a[2][0])
+        ok = a[0] == "call" and (a[1] or "").endswith("::add") and strip_refs(a[2][1])[0] == "param" and \
+            any(a[2][0] == sb_ for sb_ in slice_bases)
+        ctx.ob("R3.5", ctor, "(b) stub handed to the queue is slice+cap", bool(ok), ctor.loc(bb), expr_str(a))
     # (c) reverse computation
     for b, bb, kind, shp, off in steps:
         if kind != "sub":
